@@ -44,6 +44,9 @@ def check(run):
         from . import C01 as _C01
         b1 = run.borrow("C01", why="incremental insertion must index a rule exactly like a batch build")
         run.guard("C06.via.C01.1.token-source", cfg, lambda: _C01.rule_store(b1, F, cfg))
+        from . import C08 as _C08
+        b8 = run.borrow("C08", only=r"\|NetworkFilter\.", why="a serialize / deserialize round trip is part of an engine's history")
+        run.guard("C06.via.C08.1.state-coverage", cfg, lambda: _C08.rule_coverage(b8, F, cfg))
 
 
 def engine_types(F):
